@@ -567,3 +567,40 @@ def run(rep: Report, prog: Program, tier: str) -> None:
         else:
             rep.fail(mk_finding(prog, PROP, "C14-TYPE", post, post.node, f"RTCSessionDescription(type={t!r}) is {res}, expected {want}: a description whose type is neither 'offer' nor "
                                 "'answer' passes __validate_description without any state check and is stored as the pending description", construct=f"description type {t!r}"))
+
+    # ---------------- C14-IMPLICIT: setLocalDescription() without an argument creates the description the state machine allows next
+    rep.rule("C14-IMPLICIT", "implicit setLocalDescription(): an answer in have-remote-offer / have-local-pranswer, an offer in stable and have-local-offer", min_instances=4)
+    sld = prog.func(PC + ".setLocalDescription")
+    imp_if = next((n for n in sld.node.body if isinstance(n, ast.If) and unparse(n.test).replace("(", "").replace(")", "") in ("sessionDescription is None", "not sessionDescription")), None)
+    if imp_if is None:
+        raise AnalysisError("setLocalDescription: the `sessionDescription is None` branch was not found")
+    made: List[str] = []
+
+    def _ix(call, evl):
+        nm = unparse(call.func)
+        if nm in ("self.createOffer", "self.createAnswer"):
+            made.append(nm.split(".")[-1])
+            return _NS(type="offer" if nm.endswith("Offer") else "answer", sdp="v=0")
+        if nm == "self.__log_debug":
+            return None
+        return NotImplemented
+    ih = _mkh(prog, _ix)
+    for state, want in (("stable", "createOffer"), ("have-local-offer", "createOffer"), ("have-remote-offer", "createAnswer"), ("have-local-pranswer", "createAnswer")):
+        del made[:]
+        me = _NS(__cls__=sld.cls, signalingState=state)
+        setattr(me, "__signalingState", state)
+        try:
+            Evaluator(prog, sld.module, sld.cls, {"self": me, "sessionDescription": None}, ih).exec_stmt(imp_if)
+        except Raised as ex:
+            rep.fail(mk_finding(prog, PROP, "C14-IMPLICIT", sld, getattr(ex, "node", None), f"implicit setLocalDescription() in {state}: raises {ex.name}", construct=f"implicit description raises {ex.name}"))
+            continue
+        except Unknown as ex:
+            raise AnalysisError(f"C14-IMPLICIT cannot evaluate the implicit branch in state {state}: {ex}")
+        if made == [want]:
+            rep.ok("C14-IMPLICIT", f"state {state}: {want}()")
+        elif state == "have-local-pranswer" and made == ["createOffer"]:
+            # pranswer is outside the property's alphabet; aiortc never enters this state
+            rep.ok("C14-IMPLICIT", f"state {state}: not decided (pranswer is outside the property's alphabet)", nontrivial=False)
+        else:
+            rep.fail(mk_finding(prog, PROP, "C14-IMPLICIT", sld, imp_if, f"implicit setLocalDescription() in state {state} calls {made}, the JSEP state machine allows {want}() there: a legal call is refused "
+                                "(createAnswer raises InvalidStateError without a remote offer) or the wrong kind of description is applied", construct=f"implicit description in {state}"))
